@@ -160,6 +160,25 @@ def make_probe(desc, k):
         if 0 <= i < n:
             return {"stmts": pre + [A.pr(A.Index(host(), I(i))), A.pr(A.RangeIndex(host(), I(i), None))], "expect": [str(a + i)] + render_list(list(range(a + i, b))), "tag": "range_host_in", "what": what}
         return {"stmts": pre + [A.pr(A.Index(host(), I(i)))], "expect": None, "tag": "range_host_out", "what": what}
+    if form == "range2":
+        # a slice of a slice, written directly: the second pair of bounds refers to the first slice, not to the sequence underneath
+        _, kind, c, a, b, c2, d2, direct = desc
+        bs = seq_bytes(kind, c)
+        n = len(bs)
+        decl = A.Declare(V(x), seq_expr(kind, c))
+        inner = lambda: A.RangeIndex(V(x), I(a), I(b))
+        pre = [decl] if direct else [decl, A.Declare(V("m%d" % k), inner())]
+        host = inner if direct else (lambda: V("m%d" % k))
+        what = "%r[%d:%d][%d:%d]%s" % (list(c) if kind == "list" else "".join(c), a, b, c2, d2, "" if direct else " (through a variable)")
+        ok1 = 0 <= a <= b <= n
+        ok2 = ok1 and 0 <= c2 <= d2 <= b - a
+        if not ok2:
+            return {"stmts": pre + [A.Declare(V("r%d" % k), A.RangeIndex(host(), I(c2), I(d2)))], "expect": None, "tag": "range_of_range_out", "what": what}
+        res = bs[a:b][c2:d2]
+        if kind == "list":
+            return {"stmts": pre + [A.pr(A.RangeIndex(host(), I(c2), I(d2))), A.pr(A.Index(A.RangeIndex(host(), I(c2), None), I(0))) if c2 < b - a else A.pr(S("-"))],
+                    "expect": render_list(res) + ([str(bs[a:b][c2])] if c2 < b - a else ["-"]), "tag": "range_of_range_in", "what": what}
+        return {"stmts": pre + [A.pr(A.Bin("==", A.RangeIndex(host(), I(c2), I(d2)), idx_sum(x, a + c2, a + d2)))], "expect": ["true"], "tag": "range_of_range_in", "what": what}
     if form == "setop":
         _, c, i, op = desc
         n = len(c)
@@ -307,6 +326,14 @@ def run(rep, tier):
             if n <= 3 or i in (-1, n - 1, n, n + 1):
                 descs.append(("setop", c, i, "+-*"[(i + n) % 3]))
     descs.append(("setstr", ("a", "b")))
+    for kind, c in (("list", (1, 2, 3, 4)), ("str", ("a", "é", "b"))):
+        n = len(seq_bytes(kind, c))
+        for a in range(0, n + 1):
+            for b in range(a, n + 1):
+                for c2 in range(0, n + 1):
+                    for d2 in range(c2, n + 2):
+                        if tier == "thorough" or (a + b + c2 + d2) % 2 == 0 or d2 > b - a:
+                            descs.append(("range2", kind, c, a, b, c2, d2, (a + d2) % 3 != 0))
     for kind, c in seqs(tier):
         if len(c) <= 3:
             for i in range(-1, len(seq_bytes(kind, c)) + 2):
